@@ -7,13 +7,16 @@ PROP = "C13"
 def run(tier, seed, t0):
     return _sess.run_session_check(
         PROP, tier, seed, t0,
-        families=[("listeners", 600, 10000), ("listener_cross", 200, 3000), ("mixed", 150, 2000)],
+        families=[("listeners", 600, 10000), ("listener_cross", 200, 3000), ("listener_split", 150, 3000),
+                  ("mixed", 150, 2000)],
         mc_jobs=[("MC_Conn_listeners_q.cfg", None, "quick"), ("MC_Conn_listeners.cfg", None, "thorough")],
         rule="1-2 channels with confirm mode; seeded interleavings of: registering confirm / return listeners and the "
              "connection-blocked listener, replacing them, dropping their receivers, publishes (mandatory or not), server "
              "acks/nacks (single and multiple), returned messages (bodies 0/9 bytes), blocked/unblocked notices; every "
              "listener queue is read to its end; plus sessions in which one kind of listener of a channel is dropped, its "
-             "events are discarded, and the other listeners (same channel, other channel, connection) must still get theirs. "
+             "events are discarded, and the other listeners (same channel, other channel, connection) must still get theirs; "
+             "plus sessions in which a returned message arrives frame by frame and the return listener is registered, "
+             "replaced or dropped between its frames. "
              "non-trivial = a listener was replaced or dropped while events were "
              "still arriving; distinct = distinct step lists",
         nontrivial=lambda s: sum(1 for x in s["steps"] if x.get("do") in ("listen", "dropl")) >= 2,
